@@ -39,17 +39,17 @@ const (
 // genInfo is everything the generators know about the context (all of it observable by an on-path
 // attacker, except the forger which holds the peer's keys).
 type genInfo struct {
-	vw       view
-	thorough bool
+	vw             view
+	thorough       bool
 	victimIsClient bool
-	kx       string
-	cur      uint16 // next handshake message_seq the victim expects
-	emitted  []*world.Datagram
-	toVictim func(d *world.Datagram) bool
-	fg       *forger // nil while the victim holds no record keys
-	epochNow uint16  // highest epoch the victim can read
-	victimEst bool // the victim's handshake has completed
-	cbc       bool // the negotiated suite is a CBC suite
+	kx             string
+	cur            uint16 // next handshake message_seq the victim expects
+	emitted        []*world.Datagram
+	toVictim       func(d *world.Datagram) bool
+	fg             *forger // nil while the victim holds no record keys
+	epochNow       uint16  // highest epoch the victim can read
+	victimEst      bool    // the victim's handshake has completed
+	cbc            bool    // the negotiated suite is a CBC suite
 	// nextType is the handshake type the victim would plausibly receive next (for quick-tier products).
 	nextType byte
 }
@@ -294,11 +294,11 @@ var (
 
 // hsShape is one point of the handshake-header product.
 type hsShape struct {
-	typ            byte
-	length         uint32
-	mseq           uint16
-	off, flen      uint32
-	mseqName       string
+	typ       byte
+	length    uint32
+	mseq      uint16
+	off, flen uint32
+	mseqName  string
 }
 
 // isComplete: the fragment is a whole (tiny) message.
@@ -787,10 +787,8 @@ func genAuth(gi *genInfo) []*input {
 				n string
 			}{{gi.cur, "cur"}, {gi.cur + 1, "cur+1"}} {
 				for l := 0; l <= len(m.body); l++ {
-					if m.typ == 24 && l == len(m.body) && len(m.body) == 1 && m.body[0] <= 1 {
-						// a VALID KeyUpdate from "the peer" rotates the victim's receive keys; the genuine peer did not
-						// rotate: only the forger could go on talking. Kept (it must not crash) but it may end the session.
-					}
+					// (a VALID KeyUpdate from "the peer" rotates the victim's receive keys while the genuine peer did not
+					// rotate: only the forger could go on talking. It must not crash, but it may end the session.)
 					in := g.forged(fmt.Sprintf("%s truncated to %d/%d at mseq=%s", m.name, l, len(m.body), ms.n)+ep,
 						&forgeSpec{typ: 22, epoch: e, payload: hsMessage(m.typ, ms.v, m.body[:l])}, "auth/handshake-message", mayAbort)
 					if gi.victimEst && gi.vw.is13 && (gi.thorough || l <= 2 || l == len(m.body)) {
@@ -801,8 +799,12 @@ func genAuth(gi *genInfo) []*input {
 		}
 		// handshake fragments as in (ii) inside protected records
 		for _, s := range hsShapes(gi, gi.thorough) {
-			if !gi.thorough && s.typ != gi.nextType && s.typ != 255 && !(gi.victimEst && gi.vw.is13) {
-				continue
+			if !gi.thorough && !(gi.victimEst && gi.vw.is13) {
+				// quick: the expected type and an unknown type, lengths {0,12}, message_seq {cur,cur+1}, all
+				// offsets and fragment lengths (the established DTLS 1.3 endpoint gets the whole quick product)
+				if (s.typ != gi.nextType && s.typ != 255) || (s.length != 0 && s.length != 12) || (s.mseq != gi.cur && s.mseq != gi.cur+1) {
+					continue
+				}
 			}
 			in := g.forged(s.String()+ep, &forgeSpec{typ: 22, epoch: e, payload: s.bytes()}, "auth/handshake-fragment", mayAbort)
 			if s.isF1Shape() && s.mseq >= gi.cur {
